@@ -47,6 +47,23 @@ def routeAll (path : Bytes) (patternVerbs : List Bytes) : Except Fault (Option (
     let rs ← patternVerbs.mapM (routeIter pathComponents last bufCap)
     .ok (some rs)
 
+/-- what `RouteHTTP` does with `routeAll`'s result: InvalidArgument without a leading slash, else the closure's
+    `MatchAndEscape` call per route in list order — first success wins, a malformed escape ends the search with
+    InvalidArgument, `ErrNotMatch` (and a skipped route) goes on; NotFound when the list is exhausted. -/
+def consumeSlices {ι : Type} : List RouteSlices → List (GB.C03.Route ι) → GB.C03.RouteResult ι
+  | s :: ss, r :: rs =>
+    match (match s with | .comps mc v => r.run mc v | _ => .notMatch) with
+    | .ok params => .found r.id params
+    | .malformed => .error .invalidArgument
+    | .notMatch => consumeSlices ss rs
+    | .fault => consumeSlices ss rs
+  | _, _ => .error .notFound
+
+def routeAllResult {ι : Type} (rs : Option (List RouteSlices)) (rts : List (GB.C03.Route ι)) : GB.C03.RouteResult ι :=
+  match rs with
+  | none => .error .invalidArgument
+  | some l => consumeSlices l rts
+
 /-! ## parseMetadataQuery as a whole (values and predicates: GB.C19) -/
 
 /-- Go map that may be nil -/
@@ -65,6 +82,10 @@ def mapDeleteGo (m : NilMap GB.C19.Values) (k : Bytes) : NilMap GB.C19.Values :=
 structure MQSt where
   modified : NilMap GB.C19.Values
   md : NilMap GB.C19.MD
+
+/-- what `parseMetadataQuery` leaves for binding: `modified` when it was created (`r.URL.RawQuery = modified.Encode()`),
+    else the untouched original query -/
+def MQSt.remaining (st : MQSt) (orig : GB.C19.Values) : GB.C19.Values := st.modified.getD orig
 
 /-- the inner loop over the values of one key -/
 def mdValsLoop (mdKey : Bytes) : List Bytes → NilMap GB.C19.MD → Except Fault (NilMap GB.C19.MD)
